@@ -33,6 +33,9 @@ type RPCError struct {
 	RawGrpcMessage string
 	// PadDetails: gRPC / gRPC-Web backends send grpc-status-details-bin as padded base64 (allowed by the gRPC spec).
 	PadDetails bool
+	// DetailsCode, when set, is the code inside grpc-status-details-bin (hostile backends: it contradicts grpc-status);
+	// the details header is then sent even without details.
+	DetailsCode *int
 }
 
 type BareHTTP struct {
@@ -753,8 +756,12 @@ func grpcStatusInto(h http.Header, e *RPCError, prefix string) {
 	} else if e.Msg != "" {
 		h[prefix+"Grpc-Message"] = []string{grpcPctEncode(e.Msg)}
 	}
-	if len(e.Details) > 0 {
-		bin, _ := proto.Marshal(statusProto(e))
+	if len(e.Details) > 0 || e.DetailsCode != nil {
+		st := statusProto(e)
+		if e.DetailsCode != nil {
+			st.Code = int32(*e.DetailsCode)
+		}
+		bin, _ := proto.Marshal(st)
 		enc := base64.RawStdEncoding
 		if e.PadDetails {
 			enc = base64.StdEncoding // receivers must accept padded and unpadded values
